@@ -251,7 +251,11 @@ def report(ctx, binp, recs, idxs, source, budget_s, minimal=False, allowed=None)
                 print(line, flush=True)
                 ctx.known_lines.append(line)
             continue
-        rest.append({"case": c if minimal else shrink(ctx, binp, c, budget_s)})
+        rest.append(c)
+    # only the first max_report are reported by the generic reporter: shrink just those (smallest first)
+    lim = max(0, ctx.cfg.get("max_report", 6) - len(ctx.violations))
+    rest = sorted(rest, key=lambda c: len(_ops(c)))[:lim]
+    rest = [{"case": c if minimal else shrink(ctx, binp, c, budget_s)} for c in rest]
     if rest:
         ctx.cfg["shrink"] = False
         vcheck.handle_mismatches(ctx, binp, rest, list(range(len(rest))), source)
